@@ -24,10 +24,13 @@ def run(ctx):
     stats = {"apy_elapsed": 0, "apy_past_last_bucket": 0, "apy_partial_week": 0, "pairs_ordered": 0, "pairs_strict": 0}
     seen = set()
     total = 0
+    stats.update({"wide_pairs_ordered": 0, "wide_below_2p64": 0, "wide_straddling_2p64": 0, "wide_both_saturated": 0})
     stats.update({"unstake_partial": 0, "unstake_full_request": 0, "unstake_forced_full": 0, "unstake_dust_swept": 0,
                   "unstake_rejected_claims_disabled": 0, "unstake_rejected_amount": 0, "unstake_value_rounded": 0})
     for name, args in (("small", ["small"]),
                        ("random", ["random", "--seed", ctx.seed, "--n", 4000 if q else 60000]),
+                       # type-limit tier: u128 stake values / integrals, raw rewards around and far above 2^64 (BigNum records)
+                       ("wide", ["wide", "--seed", ctx.seed, "--n", 800 if q else 8000]),
                        ("unstake", ["unstake", "--seed", ctx.seed, "--n", 1500 if q else 30000])):
         tr = ctx.path(name + ".ndjson")
         ctx.run_bin("c38", args + ["--out", tr])
@@ -42,6 +45,13 @@ def run(ctx):
                     stats["apy_past_last_bucket"] += t // 604800 > 52
                     stats["apy_partial_week"] += t % 604800 != 0
                 seen.add(("apy", t, tuple(e["g"])))
+            elif e["op"] == "reward_pair_wide":
+                if e["ok1"] and e["ok2"] and int(e["a1"]["s"]) <= int(e["a2"]["s"]) and int(e["c1"]["s"]) <= int(e["c2"]["s"]):
+                    stats["wide_pairs_ordered"] += 1
+                    stats["wide_below_2p64"] += not e["sat2"]
+                    stats["wide_straddling_2p64"] += e["sat2"] and not e["sat1"]
+                    stats["wide_both_saturated"] += e["sat1"] and e["sat2"]
+                seen.add(("rww", e["b"]["s"], e["a1"]["s"], e["c1"]["s"], e["a2"]["s"], e["c2"]["s"]))
             elif e["op"] == "unstake":
                 rem = e["amount"] - e["u"]
                 if e["ok"]:
@@ -68,8 +78,9 @@ def run(ctx):
         if v == 0:
             raise vlib.ToolError("vacuity: no event of class %s" % k)
     ctx.assumptions += [
-        "APY values are small integers (the average is scale free); sums stay below 2^31; u128 saturation and the u64 "
-        "saturation of the reward are outside the explored world",
+        "APY values are small integers (the average is scale free); sums stay below 2^31; u128 saturation of the average is "
+        "outside the explored world; the reward's u64 saturation is covered by the type-limit tier (monotonicity judged on "
+        "BigNum limbs; the exact reward formula is judged on the small tier only)",
         "the literal per-second average is compared with the code-shaped and the week-grouped formula for a 3-second week "
         "(TLC, all elapsed times up to 55 weeks); at the real week length the monitor uses the week-grouped definition",
         "unstake_lp runs through the program entry on fabricated accounts; the store (GT cumulative factor via return data, GT "
